@@ -44,7 +44,9 @@ Theorem C14_from_cbor_outcomes : forall m s h s' r d, fstep m s (FromCbor h) = (
 Proof. exact from_cbor_outcomes. Qed.
 
 (* validity, payload, re-encoding and metadata obtained through the interface are those of the Rust API on the
-   stored bundle; bundle_to_cbor stores the recomputed CRCs (`&mut`) *)
+   stored bundle; bundle_to_cbor stores the recomputed CRCs (`&mut`).  An EID text containing U+0000 is not a C
+   string: bundle_get_metadata then returns NULL, heap untouched, nothing allocated (repaired; the original code
+   aborted the process there: C14_pinned_refuted) *)
 Theorem C14_agrees_with_rust_api : forall m s k b, fget s k = Some (BundleCell b) ->
   fstep m s (IsValid k) = (s, RBool (is_valid b), 0%Z)
   /\ fstep m s (Payload k) = (fpush s (BufferCell (payload b)), RHandle (fresh s), buffer_allocs (payload b))
@@ -54,7 +56,9 @@ Theorem C14_agrees_with_rust_api : forall m s k b, fget s k = Some (BundleCell b
       fstep m s (GetMetadata k) =
         (fpush s (MetaCell (eid_print (p_src (b_primary b))) (eid_print (p_dst (b_primary b)))
                            (p_time (b_primary b)) (p_seq (b_primary b)) (p_lifetime (b_primary b))),
-         RHandle (fresh s), 3%Z)).
+         RHandle (fresh s), 3%Z))
+  /\ (has_nul (eid_print (p_src (b_primary b))) || has_nul (eid_print (p_dst (b_primary b))) = true ->
+      fstep m s (GetMetadata k) = (s, RNull, 0%Z)).
 Proof. exact queries_agree. Qed.
 
 (* end to end on the C01 domain: every well-formed bundle that validates, encoded, handed to bundle_from_cbor,
@@ -101,12 +105,14 @@ Theorem C14_book_rejects_exactly_protocol_errors : forall m s c s' r d, fstep m 
   (book_step (book_of s) c r = None <-> r = RProtocolError).
 Proof. exact book_reject_protocol. Qed.
 
-(* the only calls that can still abort the process: bundle_new_default on bad arguments (caller error: invalid
-   UTF-8 / unparsable EID / dtn:none destination / payload buffer {NULL,0} / clock before 2000) and
-   bundle_get_metadata on a bundle whose source or destination text contains U+0000 (FINDING CANDIDATE: such a
-   bundle decodes and validates — C14_ex_metadata_nul_aborts) *)
+(* the process can abort ONLY on a caller error: bundle_new_default on bad arguments (invalid UTF-8 / unparsable
+   EID / dtn:none destination / payload buffer {NULL,0} / clock before 2000); nothing that comes from the network
+   (buffer contents, decoded bundles) can make any exported function abort *)
 Theorem C14_aborts_only_on_caller_error : forall m s c s' d, fstep m s c = (s', RAbort, d) -> abort_cause m s c.
 Proof. exact aborts_only. Qed.
+Theorem C14_no_abort_outside_new_default : forall m s c s' r d, fstep m s c = (s', r, d) ->
+  (forall src dst life ph clock, c <> NewDefault src dst life ph clock) -> r <> RAbort.
+Proof. exact no_abort_outside_new_default. Qed.
 Theorem C14_new_default_returns : forall m s src dst life ph clock, new_default_ok m s src dst ph clock = true ->
   exists b l, fstep m s (NewDefault src dst life ph clock) =
               (fpush (mk_fstate (f_cells s) l) (BundleCell b), RHandle (fresh s), bundle_allocs b)
@@ -160,21 +166,26 @@ Example C14_ex_new_default :
      = Some (MetaCell (map n2b [100;116;110;58;47;47;97;47]) dst 1000 1 5000).
 Proof. vm_compute. split; reflexivity. Qed.
 
-(* FINDING CANDIDATE: a bundle whose source is dtn://a<U+0000>b/ decodes and validates, and
-   bundle_get_metadata aborts the process on it (CString::new(..).unwrap()) *)
+(* a bundle whose source is dtn://a<U+0000>b/ decodes and validates; its text is not a C string:
+   bundle_get_metadata returns NULL and allocates nothing, the other queries work, everything frees cleanly *)
 Definition nul_bundle : bundle :=
   mkbundle (mkprimary 7 0 CrcNo (Dtn 1 (map n2b [47;47;100;47;120])) (Dtn 1 (map n2b [47;47;97;0;98;47])) eid_none 5 0 1000 0 0)
            [mkcanonical 1 1 0 CrcNo (Data (map n2b [104;105]))].
-Example C14_ex_metadata_nul_aborts :
+Definition nul_calls : list fcall :=
+  [MakeBuffer (fst (to_cbor nul_bundle)); FromCbor 0; IsValid 1; GetMetadata 1; Payload 1; BufferFree 2; BundleFree 1; DropBuffer 0].
+Example C14_ex_metadata_nul_null :
   wf_bundle nul_bundle = true /\ validate nul_bundle = []
-  /\ rets (frun Checked finit [MakeBuffer (fst (to_cbor nul_bundle)); FromCbor 0; IsValid 1; GetMetadata 1])
-     = [RHandle 0; RHandle 1; RBool true; RAbort].
+  /\ rets (frun Checked finit nul_calls) = [RHandle 0; RHandle 1; RBool true; RNull; RHandle 2; RUnit; RUnit; RUnit]
+  /\ deltas (frun Checked finit nul_calls) = [0; 5; 0; 0; 2; -2; -5; 0]%Z
+  /\ protocol_ok Checked nul_calls = true.
 Proof. vm_compute. repeat split; reflexivity. Qed.
 
-(* the ORIGINAL ffi.rs (variant Pinned = D11): aborts on an undecodable buffer; the C example's own sequence
-   leaks 3 allocations (one per buffer with data, one per metadata struct) although everything was freed *)
+(* the ORIGINAL ffi.rs (variant Pinned = D11 + the metadata unwrap): aborts on an undecodable buffer; the C example's
+   own sequence leaks 3 allocations (one per buffer with data, one per metadata struct) although everything was
+   freed; bundle_get_metadata aborts on a valid bundle whose EID text contains U+0000 *)
 Theorem C14_pinned_refuted :
   rets (frun_v Pinned Checked finit [MakeBuffer []; FromCbor 0]) = [RHandle 0; RAbort]
+  /\ rets (frun_v Pinned Checked finit (firstn 4 nul_calls)) = [RHandle 0; RHandle 1; RBool true; RAbort]
   /\ rets (frun_v Pinned Checked finit [BufferTest; FromCbor 0]) = [RHandle 0; RAbort]
   /\ net_allocs (snd (frun_v Pinned Checked finit c_example)) = 3%Z
   /\ library_cells (fst (frun_v Pinned Checked finit c_example)) = []
@@ -200,5 +211,6 @@ Print Assumptions C14_balanced_from.
 Print Assumptions C14_use_after_free_flagged.
 Print Assumptions C14_book_rejects_exactly_protocol_errors.
 Print Assumptions C14_aborts_only_on_caller_error.
+Print Assumptions C14_no_abort_outside_new_default.
 Print Assumptions C14_new_default_returns.
 Print Assumptions C14_pinned_refuted.
